@@ -687,11 +687,14 @@ example : C10B.bothRejected [] [J, Ra, Rnp] [J, Rnp, Ra] = true ∧
 /-! #### why the hypotheses are there -/
 
 private def pathDir (id : Nat) : BTree := .node { kind := .Path, id := id, src := id, body := some (s "{}") } []
-/-- three methods with a Path directive each; the first and the third have the same source identity (5): the
-same method of a macro pasted twice -/
+/-- three methods with a Path directive each; the first and the third have the same IDENTITY (70) — which no forest
+numbered by the decoration has (there every directive has its own number); since F44 the Path stage goes by identity,
+not by coordinates, so the same method of a macro pasted twice (same `src`, different `id`) is no longer such a case -/
 private def M5 : BTree := .node { kind := .Get, id := 70, src := 5, named := [("Path", s "/p/{a}")] } [pathDir 71]
 private def M6 : BTree := .node { kind := .Get, id := 72, src := 6, named := [("Path", s "/q/{a}")] } [pathDir 73]
-private def M5' : BTree := .node { kind := .Get, id := 74, src := 5, named := [("Path", s "/r/{a}")] } [pathDir 75]
+private def M5' : BTree := .node { kind := .Get, id := 70, src := 5, named := [("Path", s "/r/{a}")] } [pathDir 75]
+/-- the same method of a macro pasted twice: same coordinates, its own identity -/
+private def M5p : BTree := .node { kind := .Get, id := 76, src := 5, named := [("Path", s "/r/{a}")] } [pathDir 77]
 
 /-- the Path stage remembers the parent of the LAST Path directive only: `5 6 5` is accepted, `5 5 6` rejected.
 The exchanged blocks are method blocks: without `hpaths` (or `noPathTree`) the statement is false in the model -/
@@ -699,6 +702,10 @@ theorem path_stage_order_matters :
     isMethodBlock M6 = true ∧ isMethodBlock M5' = true ∧
     (compile [] [J, M5, M6, M5']).isOk = true ∧
     C10B.errIs (compile [] [J, M5, M5', M6]) ⟨75, .notUnique⟩ = true := by decide +kernel
+
+/-- F44 in the model: two copies of one macro method (same coordinates) one after the other are accepted -/
+theorem pasted_twice_accepted :
+    (compile [] [J, M5, M5p, M6]).isOk = true ∧ (compile [] [J, M5, M6, M5p]).isOk = true := by decide +kernel
 
 /-- a URL directive below a method, and a Query below that URL: it addresses the interaction GET /y -/
 private def Alien : BTree :=
